@@ -10,7 +10,7 @@ from ..gen_lean import Def
 from ..runner import Corr, Failure
 from . import isect_common as ic
 
-LEAN_MODULES = ['SvgVerif.Props.C11', 'SvgVerif.Props.C11Model', 'SvgVerif.Props.C11PointToT']
+LEAN_MODULES = ['SvgVerif.Props.C11', 'SvgVerif.Props.C11Model', 'SvgVerif.Props.C11PointToT', 'SvgVerif.Props.C11Cubic']
 
 ASSUMPTIONS = [
     'np.roots (through polyroots01) is an oracle: soundness of bezier_by_line_intersections and of the u1transform route of Arc.intersect is '
